@@ -343,16 +343,27 @@ OCTET_STRING_decode_ber(const asn_codec_ctx_t *opt_codec_ctx,
 		case ASN_OSUBV_STR:
 		default:
 			if(sel) {
-				unsigned level = sel->cont_level;
-				if(level < td->all_tags_count) {
-					expected_tag = td->all_tags[level];
-					break;
-				} else if(td->all_tags_count) {
-					expected_tag = td->all_tags
-						[td->all_tags_count - 1];
-					break;
+				/*
+				 * The TLV found inside the one at containment
+				 * level N is entry N+1 of the chain of tags
+				 * [member's EXPLICIT tag,] td->tags[0..].
+				 * Past that chain come the segments of the
+				 * string, which are OCTET STRINGs (BIT STRINGs)
+				 * whatever the tags of the type are:
+				 * X.690 #8.7.3.2, #8.6.4.1, #8.23.6.
+				 */
+				unsigned level = sel->cont_level
+					+ (tag_mode == 1 ? 0 : 1);
+				if(level < td->tags_count) {
+					expected_tag = td->tags[level];
+				} else if(type_variant == ASN_OSUBV_BIT) {
+					expected_tag = (ASN_TAG_CLASS_UNIVERSAL
+							| (3 << 2));
+				} else {
+					expected_tag = (ASN_TAG_CLASS_UNIVERSAL
+							| (4 << 2));
 				}
-				/* else, Fall through */
+				break;
 			}
 			/* Fall through */
 		case ASN_OSUBV_ANY:
